@@ -84,14 +84,19 @@ def gen_pairs_trace(recipe, rng):
     # preprocessor array): the distances compared are still those of the designated points under the learned L
     X = np.round(X * 4.0)
     S = np.round(S * 4.0)
+    # ... of any integer type that holds the numbers (for an unsigned one the whole data set is translated into its range)
+    idt = np.dtype(str(rng.choice(['int64', 'int64', 'int32', 'int16', 'uint64', 'uint32', 'uint16'])))
+    if idt.kind == 'u':
+      shift = np.floor(-min(X.min(), S.min())) + 3.0
+      X, S = X + shift, S + shift
     tr = dict(tr, X=X)
   via_index = recipe['via_index']
   opts = gen.options(rng, name, X.shape[1], 2)
-  S_arg = S.astype(np.int64) if int_tuples else S
+  S_arg = S.astype(idt) if int_tuples else S
   if via_index:
     store = np.vstack([S, X])
     if int_tuples:
-      store = store.astype(np.int64)
+      store = store.astype(idt)
     opts['preprocessor'] = store
     fit_pairs = tr['idx'] + len(S)
   else:
